@@ -227,7 +227,7 @@ def _with_fail(rng, max_n, kinds=("Boom", "Boom", "ValueError", "BaseBoom", "Zer
 
 def generate(ctx):
     rng = ctx.rng
-    for _ in range(ctx.n(1000, 8000)):
+    for _ in range(ctx.n(1500, 8000)):
         yield "trace", _with_fail(rng, rng.choice([4, 7, 10, 14, 18]))
     scheds = ["sync", "threaded", "threaded", "threadpool"]
     for _ in range(ctx.n(80, 1200)):
